@@ -7,7 +7,7 @@ from ..runner import Case, Property
 class C19(Property):
     id = "C19"
     lean_module = "RosuModel.Props.C19Full"   # imports Props/C19Curve.lean (→ Props/C19Lipschitz.lean, Props/C19.lean, Props/C16Surplus.lean) and Props/C19Ieee.lean; namespace Rosu.C19
-    theorem_modules = ['RosuModel.Props.C19Curve', 'RosuModel.Props.C19Ieee', 'RosuModel.Props.C19IeeePos', 'RosuModel.Props.C19IeeeBound', 'RosuModel.Props.C19IeeeErr', 'RosuModel.Props.C19IeeeSearch', 'RosuModel.Props.C19IeeeFinite', ('RosuModel.Lemmas.FloatErrRange32', 'Rosu.FErr')]   # files whose top-level theorems are all audited
+    theorem_modules = ['RosuModel.Props.C19Curve', 'RosuModel.Props.C19Ieee', 'RosuModel.Props.C19IeeePos', 'RosuModel.Props.C19IeeeBound', 'RosuModel.Props.C19IeeeErr', 'RosuModel.Props.C19IeeeSearch', 'RosuModel.Props.C19IeeeFinite', ('RosuModel.Lemmas.FloatErrRange32', 'Rosu.FErr'), 'RosuModel.Props.C19IeeeLipschitz', 'RosuModel.Props.C19DecodedLinear']   # files whose top-level theorems are all audited
     namespace = "Rosu.C19"
     design_ref = "5.19"
     level_text = (
@@ -36,7 +36,10 @@ class C19(Property):
         "Model tied to the code bit-for-bit "
         "(positions, distances, indices, also for NaN / unsorted lengths).")
     technique = "Lean 4 proof (generic arithmetic, structural) + bit-exact differential correspondence + independent oracle"
-    required_theorems = ["segFinite_statement_false", "segFinite_of_bounded", "weight_finite", "coordInterp_finite", "segFinite_of_curve", "positionAt_dist_err_float32_nofin",
+    required_theorems = ["vertex_chord_sum_float32", "chordBooked_natural", "chordBooked_natural_zero", "idxOfDist_mono_float", "position_anchor_float32", "position_same_bracket_float32",
+                         "position_lipschitz_gen_float32", "position_lipschitz_float32", "position_lipschitz_degenerate_float32", "positionAt_lipschitz_float32", "demo_chordBooked",
+                         "linear_path_vertices", "natural_lengths_sorted_float", "linear_curve_shape", "linear_curve_position_err_float32_partial", "hbf_iff_all_finite", "linCps_curve",
+                         "segFinite_statement_false", "segFinite_of_bounded", "weight_finite", "coordInterp_finite", "segFinite_of_curve", "positionAt_dist_err_float32_nofin",
                          "positionAt_dist_on_polyline_float32_nofin", "positionAt_progress_err_float32_nofin",
                          "bsLoop_spec_ieee", "idxOfDist_spec_ieee", "idxOfDist_bracket_float", "idxOfDist_below_ieee", "idxOfDist_beyond_ieee", "positionAt_dist_err_float32",
                          "positionAt_dist_on_polyline_float32", "positionAt_progress_err_float32", "demo_idx",
@@ -56,6 +59,19 @@ class C19(Property):
                          # Props/C19Ieee.lean: the order part of PosLaws for the driver's Float; the search finds an exact hit for IEEE doubles
                          "posLaws_order_float", "bsLoop_hit_ieee", "idxOfDist_hit_ieee", "idxOfDist_hit_float"]
     partial_theorems = {
+        "positionAt_lipschitz_float32 / position_lipschitz_float32": "Props/C19IeeeLipschitz.lean (sixth session, wave 9): the ARC-LENGTH CLAUSE ON IEEE FLOATS, across segments. vertex_chord_sum_float32 (telescoping: "
+            "|x_j − x_i| ≤ (L_j − L_i)(1+κ) under ChordBooked κ), chordBooked_natural / chordBooked_natural_zero (natural lengths satisfy ChordBooked 2^-20 under the side conditions of chord_le_booked_float), "
+            "idxOfDist_mono_float (the search is monotone, order facts only), position_anchor_float32, position_same_bracket_float32, and position_lipschitz_float32: for d ≤ d' in range the two positions "
+            "differ per coordinate by at most (d' − d)(1+κ) + 2·interpBound — the SAME slack as inside one segment, because the vertices in between are stored exactly; positionAt_lipschitz_float32: the same "
+            "through progress_to_dist for any two progress values q ≤ q', clamping included. PARTIAL in two named respects: `hnd` — the bracket of d is non-degenerate when the two brackets differ (a degenerate "
+            "bracket returns the earlier vertex; position_lipschitz_gen_float32 / …_degenerate_float32 are the unconditional forms, with the anchor s ≤ d in place of d) — and `ChordBooked` stays a hypothesis on "
+            "the curve (discharged for natural lengths with opt = +0 by chordBooked_natural_zero; for osu!-mode Catmull curves the first segment's bound is the hypothesis h0); d' − d is not rewritten as (q' − q)·total",
+        "linear_curve_position_err_float32_partial": "Props/C19DecodedLinear.lean (sixth session, wave 9): the hypotheses of the float position theorem hold for the curve the model computes for all-linear "
+            "control points without a requested length: linear_path_vertices (every path vertex is a control-point position, any mode / fuel / buffers; optimized_len = 0), natural_lengths_sorted_float (the natural "
+            "lengths of a finite path are Sorted, start at 0, are ≥ 0 and aligned with the path), linear_curve_shape, and linear_curve_position_err_float32_partial — position_at(q) of Curve::new(points, None) is "
+            "within 1/4 px per coordinate of a point between two consecutive path vertices that are control-point positions. PARTIAL: `hbf` (the f64 total did not overflow) stays a hypothesis — missing is a "
+            "range lemma 'sqrt of a finite non-negative double is finite'; the full statement is recorded with path.length ≤ 2^40; the exact-list correspondence with the control polyline and a requested length "
+            "(the decoded case) were not attempted",
         "positionAt_progress_err_float32_nofin / segFinite_statement_false": "Props/C19IeeeFinite.lean, Lemmas/FloatErrRange32.lean (sixth session, wave 8): the no-overflow hypothesis `SegFinite` of the position theorems is "
             "DISCHARGED. The statement as first recorded (segFinite_statement) is FALSE: Bounded19 bounds `toRat32`, which is 0 by convention for ±∞ / NaN, so it does not exclude an infinite coordinate "
             "(segFinite_statement_false, kernel witness p0 = (+∞, 0)). With `FinitePos` for the vertices added (segFinite_corrected_statement) it is a theorem, for any finite d1 including f64::MAX: "
